@@ -220,11 +220,16 @@ Proof.
   destruct fits.
   2:{ intros [= <- <- <- <-]. split; [|apply Hfields].
       apply discard_nsid; auto. }
-  destruct (stmt_pipeline eps s1 nsid (t_id p) (at_node a)) as [s2 r] eqn:Hp.
+  set (s1f := set_fault E s1 (t_id p) (at_node a)).
+  assert (Hf1 : evicts s1f = evicts s1) by reflexivity.
+  assert (Hf2 : refuse_evict s1f = refuse_evict s1) by reflexivity.
+  assert (Hf3 : heap_ok s1 -> heap_ok s1f) by (intros H; exact H).
+  assert (Hf4 : forall x, ops s1f x = ops s1 x) by reflexivity.
+  destruct (stmt_pipeline eps s1f nsid (t_id p) (at_node a)) as [s2 r] eqn:Hp.
   apply stmt_pipeline_spec in Hp as (p1 & p2 & p3 & p4 & p5).
   assert (Hd : r <> ROk -> att_post s (stmt_discard eps s2 nsid) false [mkRec k s p pq (at_node a) cands done false]).
   { intros Hr. apply discard_nsid; auto; try congruence.
-    intros sid Hs. unfold ops. rewrite (p5 Hr). apply h6, Hs. }
+    intros sid Hs. unfold ops. rewrite (p5 Hr). fold (ops s1f sid). rewrite Hf4. apply h6, Hs. }
   destruct r.
   2,3,4: (intros [= <- <- <- <-]; split; [apply Hd; discriminate|apply Hfields]).
   intros [= <- <- <- <-]. split; [|apply Hfields].
@@ -232,16 +237,56 @@ Proof.
   destruct (stmt_merge_spec s2 jsid nsid jsid_ne_nsid) as (m1 & m2 & _ & m4).
   destruct (merge_ops s2 jsid nsid jsid_ne_nsid) as (o1 & o2 & o3).
   assert (Hn2 : ops s2 nsid = map ev_op done ++ [mkOp KPipeline i Pending]).
-  { rewrite (ops_insert_eq _ _ _ _ Hst), h5. reflexivity. }
+  { rewrite (ops_insert_eq _ _ _ _ Hst), Hf4, h5. reflexivity. }
   assert (Ho2 : forall sid, sid <> nsid -> ops s2 sid = ops s sid).
-  { intros sid Hs. rewrite (ops_insert_ne _ _ _ _ _ Hst Hs). apply h6, Hs. }
+  { intros sid Hs. rewrite (ops_insert_ne _ _ _ _ _ Hst Hs), Hf4. apply h6, Hs. }
   unfold att_post. split; [congruence|]. split; [congruence|]. split; [auto|].
   split; [exact o1|].
   split; [intros sid H1 H2; rewrite (o3 sid H2 H1); apply Ho2, H1|].
   split.
   { intros Hok. rewrite o2, Hn2, (Ho2 jsid jsid_ne_nsid). simpl. rewrite app_nil_r.
-    unfold block, pipe_op. simpl. rewrite (Hi (h4 Hok)). reflexivity. }
+    unfold block, pipe_op. simpl. rewrite (Hi (Hf3 (h4 Hok))). reflexivity. }
   split; [reflexivity|]. constructor; [apply Hsound|constructor].
+Qed.
+
+(* a scripted handler fault on (preemptor, node) makes Statement.Pipeline fail: the attempt is never
+   assigned, whatever was evicted for it (and by run_attempt_spec it then leaves nothing behind) *)
+Lemma faulted_pipeline_never_assigned k s p pq a s' ok v lg :
+  heap_ok s -> (t_id p, at_node a) ∈ e_faults E ->
+  run_attempt eps E k s p pq a = (s', ok, v, lg) -> ok = false.
+Proof.
+  intros Hok Hfault. unfold run_attempt.
+  destruct (nodes s !! at_node a) as [n|]; [|intros [= <- <- <- <-]; reflexivity].
+  destruct (negb (same_ids _ _ && _)); [intros [= <- <- <- <-]; reflexivity|].
+  set (cands := omap (find_task (node_cands E k s p pq n)) (at_cands a)).
+  destruct (is_reclaim k && bool_decide (cands = [])); [intros [= <- <- <- <-]; reflexivity|].
+  set (vs := victims eps E k s p cands).
+  destruct (negb (less_equal eps (t_init p) (sum_reqs (future_idle n) vs) DZero)); [intros [= <- <- <- <-]; reflexivity|].
+  assert (Hloop : forall s1 done fits v1,
+     (if is_reclaim k
+      then let '(s1, done, avail, v) := evict_loop_rec eps s p (future_idle n) vs (at_order a) [] in
+           (s1, done, less_equal eps (t_init p) avail DZero && queue_allocatable E s1 pq p, v)
+      else let '(s1, done, v) := evict_loop_pre eps E s pq p (at_node a) vs (at_order a) [] in
+           (s1, done, preemptor_fits eps E s1 pq p (at_node a), v)) = (s1, done, fits, v1) -> heap_ok s1).
+  { intros s1 done fits v1. destruct (is_reclaim k).
+    - destruct (evict_loop_rec eps s p (future_idle n) vs (at_order a) []) as [[[s1' done'] av] v'] eqn:Hl.
+      intros [= <- <- <- <-]. apply evict_loop_rec_spec in Hl as (new & _ & _ & _ & _ & h4 & _). auto.
+    - destruct (evict_loop_pre eps E s pq p (at_node a) vs (at_order a) []) as [[s1' done'] v'] eqn:Hl.
+      intros [= <- <- <- <-]. apply evict_loop_pre_spec in Hl as (new & _ & _ & _ & _ & h4 & _). auto. }
+  destruct (if is_reclaim k then _ else _) as [[[s1 done] fits] v1].
+  specialize (Hloop _ _ _ _ eq_refl).
+  destruct (negb (v1 =? V_OK)); [intros [= <- <- <- <-]; reflexivity|].
+  destruct fits; [|intros [= <- <- <- <-]; reflexivity].
+  set (s1f := set_fault E s1 (t_id p) (at_node a)).
+  destruct (stmt_pipeline eps s1f nsid (t_id p) (at_node a)) as [s2 r] eqn:Hp.
+  destruct r; try (intros [= <- <- <- <-]; reflexivity).
+  exfalso. unfold stmt_pipeline, with_task in Hp.
+  destruct (heap s1f !! t_id p) as [p'|] eqn:Hh; [|discriminate].
+  assert (Hid : t_id p' = t_id p) by (apply (Hloop _ _ Hh)).
+  assert (Hin : t_id p' ∈ herr s1f).
+  { unfold s1f, set_fault. simpl. rewrite bool_decide_eq_true_2 by exact Hfault. rewrite Hid. set_solver. }
+  pose proof (place_with_herr eps s1f nsid KPipeline p' (at_node a) Hin) as He.
+  rewrite Hp in He. discriminate.
 Qed.
 
 Lemma blocks_app l1 l2 : blocks (l1 ++ l2) = blocks l1 ++ blocks l2.
@@ -448,6 +493,57 @@ Proof.
     + destruct (h5 x H) as [?|(r & c0 & Hr & Hc & Hid)]; auto.
       right. exists r, c0. rewrite elem_of_app. auto.
     + right. exists r, c0. rewrite elem_of_app. auto.
+Qed.
+
+(* ---- refused evictions: cache.Evict refuses the tasks of [refuse_evict]; Commit un-evicts them ---- *)
+Lemma close_job_not_refused s jid lg s' lg' x :
+  close_job eps E s jid lg = (s', lg') -> x ∈ evicts s' -> x ∈ evicts s \/ x ∉ refuse_evict s.
+Proof.
+  unfold close_job.
+  assert (Hd : forall l0, (stmt_discard eps s jsid, l0) = (s', lg') -> x ∈ evicts s' -> x ∈ evicts s \/ x ∉ refuse_evict s).
+  { intros l0 [= <- <-]. destruct (stmt_discard_spec eps s jsid) as (d1 & _). rewrite d1. auto. }
+  destruct (jobs s !! jid) as [j|]; [|apply Hd].
+  destruct (job_pipelined_now E s j); [|apply Hd].
+  intros [= <- <-]. apply stmt_commit_not_refused.
+Qed.
+
+Lemma step_not_refused s c s' v lg x :
+  clear s -> step eps E s c = (s', v, lg) -> x ∈ evicts s' -> x ∈ evicts s \/ x ∉ refuse_evict s.
+Proof.
+  intros Hcl. destruct c as [jid tasks|jid tid atts|first jid tasks]; simpl.
+  - destruct (job_gate E s jid); [|intros [= <- <- <-]; auto].
+    destruct (run_tasks eps E AInter s jid tasks) as [[s1 v1] lg1] eqn:Hr.
+    apply run_tasks_spec in Hr as [(a1 & a2 & _) _]; [|apply Hcl].
+    destruct (close_job eps E s1 jid (filter a_ok lg1)) as [s2 lg2] eqn:Hc.
+    intros [= <- <- <-] Hx. rewrite <- a1, <- a2. eapply close_job_not_refused; eauto.
+  - destruct (job_gate E s jid) as [j|]; [|intros [= <- <- <-]; auto].
+    destruct (heap s !! tid) as [p|]; [|intros [= <- <- <-]; auto].
+    destruct (negb _); [intros [= <- <- <-]; auto|].
+    destruct (run_attempts eps E AIntra s tid (j_queue j) atts) as [[[s1 ok1] v1] lg1] eqn:Hr.
+    apply run_attempts_spec in Hr as [(a1 & a2 & _) _]; [|apply Hcl].
+    destruct ok1; intros [= <- <- <-] Hx; rewrite <- a1, <- a2.
+    + apply stmt_commit_not_refused in Hx. exact Hx.
+    + destruct (stmt_discard_spec eps s1 jsid) as (d1 & _). rewrite d1 in Hx. auto.
+  - destruct (job_gate E s jid) as [j|]; [|intros [= <- <- <-]; auto].
+    destruct (first && queue_overused eps E s (j_queue j)); [intros [= <- <- <-]; auto|].
+    destruct (run_tasks eps E AReclaim s jid tasks) as [[s1 v1] lg1] eqn:Hr.
+    apply run_tasks_spec in Hr as [(a1 & a2 & _) _]; [|apply Hcl].
+    destruct (close_job eps E s1 jid (filter a_ok lg1)) as [s2 lg2] eqn:Hc.
+    intros [= <- <- <-] Hx. rewrite <- a1, <- a2. eapply close_job_not_refused; eauto.
+Qed.
+
+Theorem run_not_refused cs : forall s s' lg x,
+  clear s -> heap_ok s -> run eps E s cs = (s', lg) ->
+  x ∈ evicts s' -> x ∈ evicts s \/ x ∉ refuse_evict s.
+Proof.
+  induction cs as [|c cs IH]; intros s s' lg x Hcl Hok; simpl.
+  - intros [= <- <-]. auto.
+  - destruct (step eps E s c) as [[s1 v1] lg1] eqn:Hs.
+    pose proof (step_spec _ _ _ _ _ Hcl Hok Hs) as (h1 & h2 & h3 & _).
+    destruct (run eps E s1 cs) as [s2 lg2] eqn:Hr.
+    intros [= <- <-] Hx. destruct (IH _ _ _ _ h1 h2 Hr Hx) as [H|H].
+    + eapply step_not_refused; eauto.
+    + right. rewrite <- h3. exact H.
 Qed.
 
 End WithEps.
